@@ -918,7 +918,40 @@ def check_compat_logic(case, out):
 
 
 # ------------------------------------------------------------------ dispatch
-KINDS = {'value': check_value, 'value_seq': check_value_seq, 'general': check_general, 'triple': check_triple,
+def check_stamp(case, out):
+    """xs:dateTimeStamp (XSD 1.1: a dateTime with a required timezone) against xs:dateTime and itself, both comparison
+    families: the answer is the one of the same two instants typed xs:dateTime"""
+    v, la, lb, ta, tb = case['v'], case['a'], case['b'], case['ta'], case['tb']
+    a, b = model_item(['dateTime', la]), model_item(['dateTime', lb])
+    out.dim('stamp_pair', '%s~%s' % (ta, tb))
+    if a is None or b is None:
+        out.nontrivial = False
+        return
+    parser = PARSERS[v](namespaces=NS, xsd_version='1.1')
+
+    def ev(expr):
+        o = call(lambda: parser.parse(expr).evaluate(None))
+        if o[0] == 'ok':
+            return o[1] if isinstance(o[1], bool) else 'other:%s' % (describe(o[1]),)
+        return (o[1] or 'err:nocode') if o[0] == 'err' else 'exc:%s@%s' % (o[1], o[2])
+    ea, eb = "xs:%s('%s')" % (ta, la), "xs:%s('%s')" % (tb, lb)
+    for vop, gop in zip(VALUE_OPS, ('=', '!=', '<', '<=', '>', '>=')):
+        exp = M.value_compare(a, b, vop, v)
+        if exp == UNDECIDED:
+            out.dim('undecided', 'stamp:unmodelled')
+            continue
+        for fam, op in (('value', vop), ('general', gop)):
+            expr = '%s %s %s' % (ea, op, eb)
+            got = ev(expr)
+            out.dim('stamp_comparisons', fam)
+            if got != exp:
+                out.fail('C07/%s/dateTimeStamp~%s/%s' % (fam, 'dateTime' if 'dateTime' in (ta, tb) else 'dateTimeStamp',
+                                                         'raises' if not isinstance(got, bool) else 'wrong-verdict'),
+                         '%s [%s, XSD 1.1]: expected %s, got %s' % (expr, v, exp, got))
+    out.obs = '%s vs %s' % (ea, eb)
+
+
+KINDS = {'stamp': check_stamp, 'value': check_value, 'value_seq': check_value_seq, 'general': check_general, 'triple': check_triple,
          'ebv': check_ebv, 'logic': check_logic, 'compat': check_compat, 'compat_logic': check_compat_logic}
 
 
@@ -1008,6 +1041,13 @@ def run(h):
         vi += 1
         return VERSIONS[(vi + h.shard) % 3]
 
+    # xs:dateTimeStamp (XSD 1.1 parsers) against xs:dateTime and itself
+    if h.shard == 0:
+        zs = POOLS['dateTime']['z']
+        for i, la in enumerate(zs[:8]):
+            for lb in (zs[(i + 1) % 8], la, zs[(i + 3) % 8]):
+                for ta, tb in (('dateTimeStamp', 'dateTime'), ('dateTime', 'dateTimeStamp'), ('dateTimeStamp', 'dateTimeStamp')):
+                    h.case('stamp', {'v': nextv(), 'a': la, 'b': lb, 'ta': ta, 'tb': tb})
     # 0. directed pairs: one per mechanism the spec pins down precisely (kept in every run)
     for ta, la, tb, lb in DIRECTED:
         for v in VERSIONS:
@@ -1116,6 +1156,8 @@ def run(h):
 
 def floors(v):
     reasons = []
+    if v.got('stamp_comparisons') < 300:
+        reasons.append('fewer than 300 xs:dateTimeStamp comparisons')
     nt = len(TYPES)
     for fam in ('value', 'general'):
         cells = v.counters.get('cell:' + fam, {})
